@@ -420,39 +420,321 @@ theorem resume_keys_agree (f : Fabric) (cacheI cacheR : List ResRec) (peer eph :
   · rw [← hrR, hrI, hnr, hnew]
 
 
-/-! ## What is *not* proved: the Dolev-Yao closure
+/-! ## The Dolev-Yao attacker
 
-The theorems above cover every message that is (a) relayed from the honest peer, or (b) not a
-ciphertext under the handshake key.  The remaining case — an attacker who *constructs* a
-ciphertext under S2K / S3K — needs the secrecy of the ECDH result against the Dolev-Yao
-deduction relation below; this statement is kept as a definition, not proved. -/
+`Derivable H S C K t`: what an on-path attacker can construct from the terms `K` it has seen, with
+all public operations, its own ephemeral secrets (any secret not in the honest set `H`),
+signatures under the long-term keys satisfying `S` and the certificates satisfying `C`
+(certificates are symbolic records, so "issued by a CA" has to come from outside).
+Decryption needs the key. -/
 
-/-- what an on-path attacker who knows the terms `K` (everything sent so far, all public data,
-its own secrets) can construct -/
-inductive Derivable (K : List Term) : Term → Prop
-  | known {t} : t ∈ K → Derivable K t
-  | atom (n) : Derivable K (.atom n)
-  | none : Derivable K .none
-  | cert (c) : Derivable K (.cert c)
-  | pair {a b} : Derivable K a → Derivable K b → Derivable K (.pair a b)
-  | fst {a b} : Derivable K (.pair a b) → Derivable K a
-  | snd {a b} : Derivable K (.pair a b) → Derivable K b
-  | hash {a} : Derivable K a → Derivable K (.hash a)
-  | kdf {a b c} : Derivable K a → Derivable K b → Derivable K c → Derivable K (.kdf a b c)
-  | mac {a b} : Derivable K a → Derivable K b → Derivable K (.mac a b)
-  | mic {a b} : Derivable K a → Derivable K b → Derivable K (.mic a b)
-  | enc {k n p} : Derivable K k → Derivable K n → Derivable K p → Derivable K (.enc k n p)
-  | dec {k n p} : Derivable K (.enc k n p) → Derivable K k → Derivable K p
-  | part {i t} : Derivable K t → Derivable K (.part i t)
+inductive Derivable (H : List Nat) (S : Nat → Prop) (C : Cert → Prop) (K : List Term) : Term → Prop
+  | known {t} : t ∈ K → Derivable H S C K t
+  | atom (n) : Derivable H S C K (.atom n)
+  | none : Derivable H S C K .none
+  | cert {c} : C c → Derivable H S C K (.cert c)
+  | epk (n) : Derivable H S C K (.epk n)
+  | ownEcdh {z t} : z ∉ H → Derivable H S C K t → Derivable H S C K (ecdh z t)
+  | pair {a b} : Derivable H S C K a → Derivable H S C K b → Derivable H S C K (.pair a b)
+  | fst {a b} : Derivable H S C K (.pair a b) → Derivable H S C K a
+  | snd {a b} : Derivable H S C K (.pair a b) → Derivable H S C K b
+  | hash {a} : Derivable H S C K a → Derivable H S C K (.hash a)
+  | kdf {a b c} : Derivable H S C K a → Derivable H S C K b → Derivable H S C K c →
+      Derivable H S C K (.kdf a b c)
+  | mac {a b} : Derivable H S C K a → Derivable H S C K b → Derivable H S C K (.mac a b)
+  | sign {k m} : S k → Derivable H S C K m → Derivable H S C K (.sign k m)
+  | mic {a b} : Derivable H S C K a → Derivable H S C K b → Derivable H S C K (.mic a b)
+  | enc {k n p} : Derivable H S C K k → Derivable H S C K n → Derivable H S C K p →
+      Derivable H S C K (.enc k n p)
+  | dec {k n p} : Derivable H S C K (.enc k n p) → Derivable H S C K k → Derivable H S C K p
+  | part {i t} : Derivable H S C K t → Derivable H S C K (.part i t)
 
-/-- full statement of the tamper clause for Sigma3 (not proved): if the attacker knows neither
-ephemeral secret of the handshake (i.e. `K` only contains what was sent on the wire and public
-data), every Sigma3 it can construct and the responder accepts is the initiator's own. -/
+/-- the secrets of a handshake with ephemeral secrets `a ≤ b`: the ECDH result and every key
+derived from it -/
+def isSec (a b : Nat) : Term → Bool
+  | .shared x y => x == a && y == b
+  | .kdf (.shared x y) _ _ => x == a && y == b
+  | _ => false
+
+/-- `P`: the secrets occur only as keys of `enc` / `mic` (never exposed) -/
+def P (a b : Nat) : Term → Prop
+  | .atom _ => True
+  | .epk _ => True
+  | .shared x y => ¬ (x = a ∧ y = b)
+  | .badShared _ t => P a b t
+  | .pair u v => P a b u ∧ P a b v
+  | .hash u => P a b u
+  | .kdf s x y => isSec a b (.kdf s x y) = false ∧ P a b s ∧ P a b x ∧ P a b y
+  | .mac k m => P a b k ∧ P a b m
+  | .sign _ m => P a b m
+  | .mic k n => isSec a b k = true ∨ (P a b k ∧ P a b n)
+  | .enc k n p => isSec a b k = true ∨ (P a b k ∧ P a b n ∧ P a b p)
+  | .cert _ => True
+  | .none => True
+  | .part _ t => P a b t
+
+theorem P_not_sec {a b : Nat} {k : Term} (h : P a b k) : isSec a b k = false := by
+  cases k <;> simp [isSec, P] at h ⊢
+  · rename_i x y; intro hx; exact fun hy => h hx hy
+  · rename_i s x y
+    exact h.1
+
+theorem P_ecdh (a b z : Nat) (t : Term) (hz : ¬ (z = a ∨ z = b)) (ht : P a b t) : P a b (ecdh z t) := by
+  unfold ecdh
+  split
+  · rename_i y
+    split <;> (simp only [P]; omega)
+  · exact ht
+
+theorem derivable_P (a b : Nat) (H : List Nat) (S : Nat → Prop) (C : Cert → Prop) (K : List Term)
+    (ha : a ∈ H) (hb : b ∈ H) (hK : ∀ t ∈ K, P a b t) :
+    ∀ t, Derivable H S C K t → P a b t := by
+  intro t h
+  induction h with
+  | known hm => exact hK _ hm
+  | atom n => trivial
+  | none => trivial
+  | cert _ => trivial
+  | epk n => trivial
+  | ownEcdh hz _ ih =>
+    apply P_ecdh _ _ _ _ _ ih
+    rintro (h | h)
+    · exact hz (h ▸ ha)
+    · exact hz (h ▸ hb)
+  | pair _ _ ih1 ih2 => exact ⟨ih1, ih2⟩
+  | fst _ ih => exact ih.1
+  | snd _ ih => exact ih.2
+  | hash _ ih => exact ih
+  | kdf _ _ _ ih1 ih2 ih3 =>
+    refine ⟨?_, ih1, ih2, ih3⟩
+    rename_i s x y _ _ _
+    cases s <;> simp [isSec]
+    rename_i u v
+    simp [P] at ih1
+    exact ih1
+  | mac _ _ ih1 ih2 => exact ⟨ih1, ih2⟩
+  | sign _ _ ih => exact ih
+  | mic _ _ ih1 ih2 => exact Or.inr ⟨ih1, ih2⟩
+  | enc _ _ _ ih1 ih2 ih3 => exact Or.inr ⟨ih1, ih2, ih3⟩
+  | dec _ _ ih1 ih2 =>
+    rcases ih1 with h1 | h1
+    · rw [P_not_sec ih2] at h1; cases h1
+    · exact h1.2.2
+  | part _ ih => exact ih
+
+/-- `Q`: every ciphertext / MIC under a secret key is one of the honest ones in `E` -/
+def Q (a b : Nat) (E : List Term) : Term → Prop
+  | .atom _ => True
+  | .epk _ => True
+  | .shared _ _ => True
+  | .badShared _ t => Q a b E t
+  | .pair u v => Q a b E u ∧ Q a b E v
+  | .hash u => Q a b E u
+  | .kdf s x y => Q a b E s ∧ Q a b E x ∧ Q a b E y
+  | .mac k m => Q a b E k ∧ Q a b E m
+  | .sign _ m => Q a b E m
+  | .mic k n => (isSec a b k = true → Term.mic k n ∈ E) ∧ Q a b E k ∧ Q a b E n
+  | .enc k n p => (isSec a b k = true → Term.enc k n p ∈ E) ∧ Q a b E k ∧ Q a b E n ∧ Q a b E p
+  | .cert _ => True
+  | .none => True
+  | .part _ t => Q a b E t
+
+theorem Q_ecdh (a b z : Nat) (E : List Term) (t : Term) (ht : Q a b E t) : Q a b E (ecdh z t) := by
+  unfold ecdh
+  split
+  · split <;> trivial
+  · exact ht
+
+theorem derivable_PQ (a b : Nat) (H : List Nat) (S : Nat → Prop) (C : Cert → Prop) (E K : List Term)
+    (ha : a ∈ H) (hb : b ∈ H) (hK : ∀ t ∈ K, P a b t ∧ Q a b E t) :
+    ∀ t, Derivable H S C K t → P a b t ∧ Q a b E t := by
+  intro t h
+  have hP : ∀ t, Derivable H S C K t → P a b t :=
+    derivable_P a b H S C K ha hb (fun t ht => (hK t ht).1)
+  refine ⟨hP t h, ?_⟩
+  induction h with
+  | known hm => exact (hK _ hm).2
+  | atom n => trivial
+  | none => trivial
+  | cert _ => trivial
+  | epk n => trivial
+  | ownEcdh _ _ ih => exact Q_ecdh _ _ _ _ _ ih
+  | pair _ _ ih1 ih2 => exact ⟨ih1, ih2⟩
+  | fst _ ih => exact ih.1
+  | snd _ ih => exact ih.2
+  | hash _ ih => exact ih
+  | kdf _ _ _ ih1 ih2 ih3 => exact ⟨ih1, ih2, ih3⟩
+  | mac _ _ ih1 ih2 => exact ⟨ih1, ih2⟩
+  | sign _ _ ih => exact ih
+  | mic hk _ ih1 ih2 =>
+    refine ⟨?_, ih1, ih2⟩
+    intro hs; rw [P_not_sec (hP _ hk)] at hs; cases hs
+  | enc hk _ _ ih1 ih2 ih3 =>
+    refine ⟨?_, ih1, ih2, ih3⟩
+    intro hs; rw [P_not_sec (hP _ hk)] at hs; cases hs
+  | dec _ _ ih1 _ => exact ih1.2.2.2
+  | part _ ih => exact ih
+
+theorem ecdh_epk (x y : Nat) : ecdh x (.epk y) = .shared (min x y) (max x y) := by
+  unfold ecdh
+  by_cases h : x ≤ y
+  · simp [h, Nat.min_eq_left h, Nat.max_eq_right h]
+  · have h' : y ≤ x := by omega
+    simp [h, Nat.min_eq_right h', Nat.max_eq_left h']
+
+theorem PQ_cert_opt (a b : Nat) (E : List Term) (o : Option Cert) :
+    P a b (optCert o) ∧ Q a b E (optCert o) := by
+  cases o <;> simp [optCert, P, Q]
+
+/-- **Sigma3 cannot be forged** (Dolev-Yao): an attacker who sees the whole handshake and knows
+the fabric's IPK (an insider), has its own ephemeral secrets, may even sign under any long-term key
+and fabricate any certificate record, but knows neither ephemeral secret of this handshake,
+cannot construct any Sigma3 the responder accepts other than the initiator's own.  With
+`keys_agree` this is the tamper clause for the responder: no session, or the session of the
+untouched run.  Public values (randoms, session ids, resumption id, IPK) are atoms. -/
+theorem sigma3_unforgeable (t t' : Time) (fabrics : List Fabric) (f : Fabric) (peer ephI ephR : Nat)
+    (rI sI ipk rR idR sR : Nat) (m1' : Msg) (ctx : RespCtx) (c3 : InitCtx3) (m : Msg)
+    (hipk : f.ipk = .atom ipk)
+    (hR : respSigma1 fabrics m1' ephR (.atom rR) (.atom idR) (.atom sR) = .sent ctx)
+    (hI : initSigma2 t' (initSigma1 f [] peer ephI (.atom rI) (.atom sI)) ctx.s2 = some c3)
+    (S : Nat → Prop) (C : Cert → Prop)
+    (hD : Derivable [ephI, ephR] S C [(initSigma1 f [] peer ephI (.atom rI) (.atom sI)).s1.toTerm,
+      m1'.toTerm, ctx.s2.toTerm, c3.s3.toTerm, f.ipk] m.toTerm)
+    (hA : (respSigma3 t ctx m).isSome = true) : m = c3.s3 := by
+  -- the responder saw the initiator's own Sigma1
+  obtain ⟨hm1, hsec3, hipk', _⟩ :=
+    initiator_accepts_honest_sigma2 fabrics m1' ephR (.atom rR) (.atom idR) (.atom sR) ctx t' _ c3 hR hI
+  obtain ⟨iEph, hpe, hsec, hs1, hs2⟩ := respSigma1_s2 fabrics m1' ephR _ _ _ ctx hR
+  obtain ⟨rRnd, rSid, rEph, noc, icac, sig, rid, hm2, _, _, _, hc, _, _, hsecI, _, _, hs3⟩ :=
+    initiator_sigma2_implies_auth t' _ ctx.s2 c3 hI
+  -- shapes
+  have hiEph : iEph = .epk ephI := by
+    rw [hm1] at hR
+    unfold respSigma1 initSigma1 at hR
+    simp only [List.find?_nil, Option.map_none] at hR
+    split at hR
+    · cases hR
+    · simp only [RespOut1.sent.injEq] at hR
+      rw [← hR] at hpe
+      exact hpe.symm
+  have hrEph : rEph = .epk ephR := by
+    rw [hs2] at hm2
+    simp only [Msg.sigma2.injEq] at hm2
+    exact hm2.2.2.1.symm
+  -- the accepted message
+  cases hres : respSigma3 t ctx m with
+  | none => rw [hres] at hA; cases hA
+  | some q =>
+    obtain ⟨sR', rR'⟩ := q
+    obtain ⟨noc3, icac3, sig3, hm, _⟩ := responder_session_implies_auth t ctx m sR' rR' hres
+    -- the shared secret
+    let a := min ephR ephI
+    let b := max ephR ephI
+    have hS : ctx.secret = .shared a b := by rw [hsec, hiEph, ecdh_epk]
+    have hSI : ecdh ephI rEph = .shared a b := by
+      rw [hrEph, ecdh_epk, Nat.min_comm, Nat.max_comm]
+    let E2 : Term := .enc (s2k ctx.secret ctx.fabric.ipk (.atom rR) (.epk ephR) m1') nonceS2
+      (tbe2 ctx.fabric.noc ctx.fabric.icac
+        (Term.sign ctx.fabric.opKey (tbs ctx.fabric.noc ctx.fabric.icac (.epk ephR) iEph)) (.atom idR))
+    let E3 : Term := .enc (s3k (ecdh ephI rEph) f.ipk (initSigma1 f [] peer ephI (.atom rI) (.atom sI)).s1 ctx.s2) nonceS3
+      (tbe3 f.noc f.icac (Term.sign f.opKey (tbs f.noc f.icac (.epk ephI) rEph)))
+    have hipkR : ctx.fabric.ipk = .atom ipk := by rw [hipk', ← hipk]; rfl
+    have hisS : ∀ x y, isSec a b (.kdf (.shared a b) x y) = true := by intro x y; simp [isSec]
+    -- the messages on the wire keep the secrets under wraps and contain no other ciphertext
+    have h1 : P a b (initSigma1 f [] peer ephI (.atom rI) (.atom sI)).s1.toTerm ∧
+        Q a b [E2, E3] (initSigma1 f [] peer ephI (.atom rI) (.atom sI)).s1.toTerm := by
+      simp [initSigma1, Msg.toTerm, resumeTerm, destId, hipk, P, Q]
+    have hcert : ∀ o : Option Cert, P a b (optCert o) ∧ Q a b [E2, E3] (optCert o) :=
+      PQ_cert_opt a b [E2, E3]
+    have hs3' : c3.s3 = .sigma3 E3 := hs3
+    have hm1Q : Q a b [E2, E3] m1'.toTerm := by rw [hm1]; exact h1.2
+    have hE2mem : E2 ∈ [E2, E3] := List.mem_cons_self
+    have hE3mem : E3 ∈ [E2, E3] := List.mem_cons_of_mem _ List.mem_cons_self
+    have hQE2 : Q a b [E2, E3] E2 := by
+      show (_ → E2 ∈ [E2, E3]) ∧ Q a b _ (s2k ctx.secret ctx.fabric.ipk (.atom rR) (.epk ephR) m1') ∧
+        Q a b _ nonceS2 ∧ Q a b _ (tbe2 ctx.fabric.noc ctx.fabric.icac _ (.atom idR))
+      refine ⟨fun _ => hE2mem, ?_, trivial, ?_⟩
+      · show Q a b _ ctx.secret ∧ Q a b _ (Term.pair ctx.fabric.ipk (.pair (.atom rR) (.pair (.epk ephR) (tt1 m1')))) ∧ Q a b _ infoS2K
+        rw [hS, hipkR]
+        exact ⟨trivial, ⟨trivial, trivial, trivial, hm1Q⟩, trivial⟩
+      · show Q a b _ (Term.cert _) ∧ Q a b _ (optCert ctx.fabric.icac) ∧ Q a b _ (Term.sign _ _) ∧ Q a b _ (Term.atom idR)
+        refine ⟨trivial, (hcert _).2, ?_, trivial⟩
+        show Q a b _ (Term.cert _) ∧ Q a b _ (optCert ctx.fabric.icac) ∧ Q a b _ (Term.epk ephR) ∧ Q a b _ iEph
+        rw [hiEph]
+        exact ⟨trivial, (hcert _).2, trivial, trivial⟩
+    have h2 : P a b ctx.s2.toTerm ∧ Q a b [E2, E3] ctx.s2.toTerm := by
+      rw [hs2]
+      have hk : isSec a b (s2k ctx.secret ctx.fabric.ipk (.atom rR) (.epk ephR) m1') = true := by
+        rw [hS]; exact hisS _ _
+      refine ⟨?_, ?_⟩
+      · show P a b (.atom 2) ∧ P a b (.atom rR) ∧ P a b (.atom sR) ∧ P a b (.epk ephR) ∧ P a b E2
+        exact ⟨trivial, trivial, trivial, trivial, Or.inl hk⟩
+      · show Q a b _ (.atom 2) ∧ Q a b _ (.atom rR) ∧ Q a b _ (.atom sR) ∧ Q a b _ (.epk ephR) ∧ Q a b _ E2
+        exact ⟨trivial, trivial, trivial, trivial, hQE2⟩
+    have hQE3 : Q a b [E2, E3] E3 := by
+      show (_ → E3 ∈ [E2, E3]) ∧ Q a b _ (s3k (ecdh ephI rEph) f.ipk _ ctx.s2) ∧
+        Q a b _ nonceS3 ∧ Q a b _ (tbe3 f.noc f.icac _)
+      refine ⟨fun _ => hE3mem, ?_, trivial, ?_⟩
+      · show Q a b _ (ecdh ephI rEph) ∧ Q a b _ (Term.pair f.ipk (tt2 _ ctx.s2)) ∧ Q a b _ infoS3K
+        rw [hSI, hipk]
+        exact ⟨trivial, ⟨trivial, h1.2, h2.2⟩, trivial⟩
+      · show Q a b _ (Term.cert _) ∧ Q a b _ (optCert f.icac) ∧ Q a b _ (Term.sign _ _)
+        refine ⟨trivial, (hcert _).2, ?_⟩
+        show Q a b _ (Term.cert _) ∧ Q a b _ (optCert f.icac) ∧ Q a b _ (Term.epk ephI) ∧ Q a b _ rEph
+        rw [hrEph]
+        exact ⟨trivial, (hcert _).2, trivial, trivial⟩
+    have h3 : P a b c3.s3.toTerm ∧ Q a b [E2, E3] c3.s3.toTerm := by
+      rw [hs3']
+      have hk : isSec a b (s3k (ecdh ephI rEph) f.ipk (initSigma1 f [] peer ephI (.atom rI) (.atom sI)).s1 ctx.s2) = true := by
+        rw [hSI]; exact hisS _ _
+      exact ⟨⟨trivial, Or.inl hk⟩, ⟨trivial, hQE3⟩⟩
+    have hab : a ∈ [ephI, ephR] ∧ b ∈ [ephI, ephR] := by
+      simp only [List.mem_cons, List.not_mem_nil, or_false, a, b]; omega
+    have hPQ := derivable_PQ a b [ephI, ephR] S C [E2, E3] _ hab.1 hab.2 (by
+      intro x hx
+      simp only [List.mem_cons, List.not_mem_nil, or_false] at hx
+      rcases hx with rfl | rfl | rfl | rfl | rfl
+      · exact h1
+      · rw [hm1]; exact h1
+      · exact h2
+      · exact h3
+      · rw [hipk]; simp [P, Q]) m.toTerm hD
+    -- the accepted ciphertext is under a secret key, hence one of the two honest ones
+    have hq := hPQ.2
+    rw [hm] at hq
+    simp only [Msg.toTerm, Q] at hq
+    have hk3 : isSec a b (s3k ctx.secret ctx.fabric.ipk ctx.s1 ctx.s2) = true := by
+      rw [hS]; exact hisS _ _
+    have hmem := hq.2.1 hk3
+    simp only [List.mem_cons, List.not_mem_nil, or_false] at hmem
+    rcases hmem with h | h
+    · -- a Sigma2 ciphertext is under another key (different KDF info)
+      simp [E2, s3k, s2k, infoS3K, infoS2K] at h
+    · rw [hm, h, hs3']
+
+
+/-- What remains unproved of the tamper clause — the symmetric statement for Sigma2: if the
+attacker cannot sign under the responder's operational key and every certificate it can present
+for the addressed node id certifies that key, then any Sigma2 the initiator accepts is the
+responder's own up to the (unauthenticated at this point, transcript-bound at Sigma3) session id.
+Unlike Sigma3 this does not follow from encryption alone: an insider who knows the IPK can run its
+own ECDH, so the argument goes through the TBS signature.  Kept as a definition, not proved. -/
 def C01_full : Prop :=
-  ∀ (t t' : Time) (ctx : RespCtx) (c : InitCtx) (c3 : InitCtx3) (K : List Term) (m : Msg),
-    initSigma2 t' c ctx.s2 = some c3 →
-    K = [ctx.s1.toTerm, ctx.s2.toTerm, c3.s3.toTerm, ctx.fabric.ipk] →
-    Derivable K m.toTerm → (respSigma3 t ctx m).isSome → m = c3.s3
+  ∀ (t : Time) (fabrics : List Fabric) (f : Fabric) (peer ephI ephR : Nat)
+    (rI sI ipk rR idR sR : Nat) (ctx : RespCtx) (c3 : InitCtx3) (C : Cert → Prop) (m : Msg),
+    f.ipk = .atom ipk →
+    respSigma1 fabrics (initSigma1 f [] peer ephI (.atom rI) (.atom sI)).s1 ephR (.atom rR)
+      (.atom idR) (.atom sR) = .sent ctx →
+    ctx.fabric.opKey = ctx.fabric.noc.pubKey →
+    (∀ c, C c → nodeIdOf c.subject = some peer → c.pubKey = ctx.fabric.opKey) →
+    Derivable [ephI, ephR] (· ≠ ctx.fabric.opKey) C
+      [(initSigma1 f [] peer ephI (.atom rI) (.atom sI)).s1.toTerm, ctx.s2.toTerm, f.ipk] m.toTerm →
+    initSigma2 t (initSigma1 f [] peer ephI (.atom rI) (.atom sI)) m = some c3 →
+    ∃ sid', m = .sigma2 (.atom rR) sid' (.epk ephR)
+      (.enc (s2k ctx.secret ctx.fabric.ipk (.atom rR) (.epk ephR) ctx.s1) nonceS2
+        (tbe2 ctx.fabric.noc ctx.fabric.icac
+          (Term.sign ctx.fabric.opKey (tbs ctx.fabric.noc ctx.fabric.icac (.epk ephR) (.epk ephI)))
+          (.atom idR)))
 
 /-! ## Non-vacuity: a concrete honest handshake (full and resumed) -/
 
